@@ -622,10 +622,10 @@ def hazard(data, w):
 
 
 # ------------------------------------------------------------------ chunk crossing
-def big_params(rng, np):
+def big_params(rng, np, tier='thorough'):
     B = rng.randint(4, 7)
-    # two or three trips of the read loop (the harness accepts up to 3000000 records)
-    ncell = 2 * CHUNK + rng.randint(2, 40) if rng.random() < 0.5 else CHUNK + rng.randint(2, 40)
+    # two trips of the read loop, in the thorough tier also three (the harness accepts up to 3000000 records)
+    ncell = 2 * CHUNK + rng.randint(2, 40) if (tier != 'quick' and rng.random() < 0.5) else CHUNK + rng.randint(2, 40)
     chunk = max(CHUNK, ncell // np)
     marks = {0, 1, ncell - 1}
     for c in range(chunk, ncell, chunk):
@@ -637,7 +637,7 @@ def big_params(rng, np):
 
 
 def gen_chunk(rng, tier, np):
-    v, B, ncell, seed, pos = big_params(rng, np)
+    v, B, ncell, seed, pos = big_params(rng, np, tier)
     return ['big %d %d %d %d %d %s' % (np, v, B, ncell, seed, ' '.join(str(p) for p in pos))]
 
 
